@@ -141,8 +141,11 @@ def run(ctx):
         if any(pool_oracle(x) for x in POOL):
             failures.append({"case": {"kind": "poolstop", "variant": r["variant"], "limit": r["limit"], "seed": ctx.seed, "n": n}, "why": pool_oracle(r),
                              "how": "looph life (last shard): WithWorkerLimit(n), n+2 jobs blocked on their context, then Stop or cancel, Wait, goroutine profile"})
-    restart_rows, rf = lc.restart_failures(binp, ctx.seed, 24 if ctx.tier == "quick" else 200)
+    nres = 24 if ctx.tier == "quick" else 200
+    restart_rows, rf = lc.restart_failures(binp, ctx.seed, nres)
     failures += rf
+    stale_rows, sf = lc.stale_worker_failures(binp, ctx.seed, nres)
+    failures += sf
     if lc.model_available():
         bad, out = model_mismatches(rows)
         if bad is None:
@@ -171,7 +174,7 @@ def run(ctx):
                 "0/yield/1ms/20ms; non-trivial = at least two effective Starts (a restart)",
         "samples": [{"mode": r["mode"], "jobs": r["jobs"], "ops": r["ops"], "observed_started": r["observed_started"]} for r in rows[:3]],
         "exhaustive": False,
-        "pool_shutdown_rounds": len(pool_rows), "sequences_with_immediate_restart": len(restarts), "restart_with_old_loop_alive_trials": len(restart_rows),
+        "pool_shutdown_rounds": len(pool_rows), "sequences_with_immediate_restart": len(restarts), "restart_with_old_loop_alive_trials": len(restart_rows), "restart_with_old_worker_busy_trials": len(stale_rows),
         "model_mismatches": len(mismatches), "oracle_failures": len(failures),
         "partial_runtime": "goroutine exit and the absence of executions after Wait are observed (goroutine profile filtered to go-quartz/quartz frames), not proved",
     })
@@ -193,6 +196,13 @@ def replay(ctx, path):
         print(json.dumps({"rounds": len(POOL), "failing": len(bad)}))
         if bad:
             vlib.report_violation(ctx, {"case": c, "why": pool_oracle(bad[0])})
+            return 1
+        return 0
+    if c.get("kind") == "staleworker":
+        rows, sf = lc.stale_worker_failures(binp, c.get("seed", ctx.seed), c.get("n", 24))
+        print(json.dumps({"trials": len(rows), "failing": len([r for r in rows if lc.stale_worker_oracle(r)])}))
+        if sf:
+            vlib.report_violation(ctx, sf[0])
             return 1
         return 0
     if c.get("kind") == "restart":
